@@ -104,7 +104,7 @@ _tls = threading.local()   # per thread (./check expands several units concurren
 _record_anchors = None    # set to a dict by `vgen.py --record-anchors` (single-threaded)
 
 
-LOSABLE = ("loop", "loopbody", "beforeloop", "afterloop", "before", "after", "closure", "inline", "desugar_for", "hoist", "rewrite")
+LOSABLE = ("desugar_mut_self", "wrapcast", "loop", "loopbody", "beforeloop", "afterloop", "before", "after", "closure", "inline", "desugar_for", "hoist", "rewrite")
 
 
 ANCH = re.compile(r"`((?:[^`])*)`(?:#(\d+))?")
@@ -227,6 +227,19 @@ def _apply_section(sec, head, it, data, s0, e0, what, edits, drop, tags_box, ret
         if not ghost_only(body):
             raise GenError(f"template line {tl}: spliced text is not ghost-only")
         edits.append(Edit(lp["body_start"] + 1, lp["body_start"] + 1, "\n" + body + "\n", "ins:loopbody", tl))
+    elif kw == "desugar_mut_self":
+        # X10: `fn f(mut self ..) BODY` is `fn f(self ..) { let mut this = self; BODY[this/self] }` (the binding mode of a
+        # by-value parameter is not part of the signature); this Verus does not accept `mut self`
+        sig = data[it["sig"][0]:it["body"][0]]
+        m_ = re.search(rb"\bmut\s+self\b", sig)
+        if not m_:
+            raise GenError(f"{what}: desugar_mut_self: no `mut self` parameter")
+        a = it["sig"][0] + m_.start()
+        edits.append(Edit(a, a + (m_.end() - m_.start()), "self", "X10:mut-self", tl))
+        b0, b1 = it["body"]
+        edits.append(Edit(b0 + 1, b0 + 1, " let mut __self = self; ", "X10:mut-self", tl))
+        for mm in re.finditer(rb"\bself\b", data[b0:b1]):
+            edits.append(Edit(b0 + mm.start(), b0 + mm.end(), "__self", "X10:mut-self", tl))
     elif kw == "wrapcast":
         # X4 (structural): every `EXPR as TYPE` cast of the function is routed through a trusted wrapper function
         # (Verus gives integer-to-float casts no meaning); written `wrapcast f64 crate::u32_as_f64`
@@ -369,6 +382,8 @@ def _apply_section(sec, head, it, data, s0, e0, what, edits, drop, tags_box, ret
             mid, tail = f" {{ Ok({x}) => Ok({x}), Err({pats[0]}) => Err(", ") }"
         elif meth == "filter" and len(pats) == 1:
             mid, tail = f" {{ Some({x}) => if {{ let {pats[0]} = &{x}; ", f" }} {{ Some({x}) }} else {{ None }}, None => None }}"
+        elif meth == "is_some_and" and len(pats) == 1:
+            mid, tail = f" {{ Some({pats[0]}) => (", "), None => false }"
         elif meth == "then" and len(pats) == 0:
             mid, tail = None, None
         else:
@@ -455,7 +470,9 @@ def expand_fn(repo, d, log, force_stub=()):
     if stub:
         # X6: signature only, body replaced by an unimplemented external_body stub
         edits.append(Edit(it["after_attrs"], it["after_attrs"], "#[verifier::external_body] ", "X6:stub", d["tline"]))
-        edits.append(Edit(it["body"][0], it["body"][1], "{ unimplemented!() }", "X6:stub", d["tline"]))
+        if "keepbody" not in d["flags"]:
+            edits.append(Edit(it["body"][0], it["body"][1], "{ unimplemented!() }", "X6:stub", d["tline"]))
+        # `stub keepbody`: the real body stays (needed when the return type is `impl Trait`); external_body hides it from the verifier
     edits.sort(key=lambda e: (e.pos, e.end))
     # overlapping check; an optional section that collides with another edit is dropped as a whole
     while True:
